@@ -88,7 +88,7 @@ def run(tier, replay=None):
         seen.add(key)
         scheds.append(steps)
     scheds = scheds[:36 if tier == "quick" else 300]
-    nruns = 6 if tier == "quick" else 40
+    nruns = 32 if tier == "quick" else 64
     jobs = []
     sjobs = []
     for kind in ("tools", "prompts", "resources"):
